@@ -23,7 +23,7 @@ type c25Config struct {
 func init() {
 	register(&Property{
 		ID:       "C25",
-		Patterns: []string{"./sql/expression"},
+		Patterns: []string{"./sql/expression", "./sql/expression/function", "./sql/expression/function/aggregation"},
 		Explanation: "Unguarded-operation clause of 'integer arithmetic is exact or out-of-range'. Inside the arithmetic kernel of package sql/expression (plus, minus, mult, " +
 			"UnaryMinus.Eval, intDiv, mod) every SSA operation that can lose the exact integer value - + - * on a fixed-width integer type, unary minus, signed division " +
 			"(MinInt / -1), and every conversion to an integer type that cannot hold all values of its source type (narrowing, sign change, float->int) - is decided: it is exact " +
@@ -51,6 +51,11 @@ func init() {
 				floatPred: "IsFloat", evalM: "Eval", typeM: "Type",
 				skip:  map[string]string{"BitOp.convertLeftRight": "bit operations are defined on the 64-bit two's complement pattern: wrapping a negative operand into BIGINT UNSIGNED is their specified result, not a lost value (outside C25's arithmetic operators)"},
 				floor: 8})
+			runC25Mut(c, c25MutCfg{decPath: "github.com/cockroachdb/apd/v3", decType: "Decimal",
+				confirmed: []string{"Decimal.Neg/d", "Decimal.Abs/d", "Decimal.Set/d", "Decimal.SetInt64/d", "Decimal.SetFinite/d", "Decimal.SetFloat64/d", "Decimal.SetString/d",
+					"Context.Add/d", "Context.Sub/d", "Context.Mul/d", "Context.Quo/d", "Context.QuoInteger/d", "Context.Rem/d", "Context.Neg/d", "Context.Abs/d",
+					"Context.Quantize/d", "Context.Round/d", "Context.Ceil/d", "Context.Floor/d", "Context.RoundToIntegralValue/d", "Context.Sqrt/d", "Context.Pow/d"},
+				floor: 0, exc: c25MutExceptions})
 		},
 		Fixture: func(c *Ctx, fx *Prog) {
 			expectFixture(c, fx, "c25: unguarded add, narrowing before negation, negation of MinInt, float->int, MinInt / -1",
@@ -82,6 +87,12 @@ func init() {
 		},
 		FixturePkgs: []string{"./testdata/c25/arith", "./testdata/c25/coerce", "./testdata/c25/tys"},
 	})
+}
+
+// c25MutExceptions: destination -> reason (C25-M1).
+var c25MutExceptions = map[string]string{
+	"sumBuffer.PerformSum/Context.Add(dst m.sum.(*apd.Decimal))": "accumulator, not an operand: sumBuffer.sum is an unexported field written only by PerformSum (read off the module's stores to the field); every decimal it stores there is one it allocated (apd.New, DecimalFromFloat64, the previous accumulator); " +
+		"the two remaining stores are results of Type.Convert that the origin walk cannot see through: Float64.Convert yields a float64 (never a decimal) and InternalDecimalType.Convert sits in the `default` arm of a switch over a field that only ever holds float64 or *apd.Decimal (dead arm; for the integer kinds it could see, DecimalType.Convert builds a new decimal). The operand n is only ever the source of the Add",
 }
 
 // c25Exceptions: operation -> reason. Dead arms are tied to side condition K2.
